@@ -295,12 +295,12 @@ def count_forms(top: int, zero: bool = True):
     return out
 
 
-def extra_specs(kmode: str = "zero", tier: str = "quick"):
+def extra_specs(kmode: str = "zero", tier: str = "quick", short: bool = False):
     """Constructs the size-bounded enumeration cannot reach (added after seeded changes showed the gaps):
     (1) counts: every repetition bound up to 3, zero counts included, over three operands in four contexts, normal and atomic, with and without whitespace;
     (2) newline: every expression of <= 2 nodes over {NEWLINE, "a", "\n", ANY} on inputs over {a, \r, \n}, also with NEWLINE as implicit whitespace."""
     out = []
-    cut = 1 if (kmode == "all" and tier == "quick") else 0   # every start position multiplies the work: one character shorter
+    cut = 1 if ((kmode == "all" or short) and tier == "quick") else 0   # every start position (or 16 optimizer configurations) multiplies the work: one character shorter
     operands = (S("a"), R("n"), ("grp", ("alt", (S("ab"), S("a")))))
     for tv in ("none", "ws"):
         starts = []
@@ -515,7 +515,7 @@ RECURSIVE_RULE_TEXT = ("; plus recursive grammars: a = { \"(\" ~ [op] ~ REC ~ [o
                        "recursive part, called as a*, a, a?, a ~ a? and in an abandoned alternative, on every input over {( ) x ,} (+ a / trivia) up to length 6 (5 under trivia; thorough 7) that starts with \"(\"")
 
 
-def metachar_specs(kmode: str = "zero", tier: str = "quick"):
+def metachar_specs(kmode: str = "zero", tier: str = "quick", sparse: bool = False):
     """Literals made of characters that mean something in a regular expression (and one non-BMP, one combining sequence), in the places the
     optimizer turns into regular expressions or substring searches: choices of literals, a literal next to a range, case-insensitive
     literals, stops of the skip idiom."""
@@ -523,7 +523,7 @@ def metachar_specs(kmode: str = "zero", tier: str = "quick"):
     starts = []
     for i, a in enumerate(lits):
         for j, b in enumerate(lits):
-            if i != j and (tier == "thorough" or (i + j) % 3 == 0 or len(a) + len(b) <= 2):
+            if i != j and (tier == "thorough" or (i + j) % (5 if sparse else 3) == 0 or len(a) + len(b) <= 2):
                 starts.append(((), ("", ("seq", (("alt", (S(a), S(b))), R("EOI"))))))
         starts.append(((), ("", ("seq", (("alt", (S(a), ("range", "a", "c"))), R("EOI"))))))
         starts.append(((), ("", ("seq", (("ci", a), R("EOI"))))))
